@@ -283,14 +283,9 @@ func RunScript(r *vk.Run, s Script) {
 			}
 		}
 	}
-	// chain-height writes: consecutive
-	hw := monitors.HeightWrites(dsp.Log())
-	for i := 1; i < len(hw); i++ {
-		r.Hit("height-writes")
-		if hw[i] != hw[i-1]+1 {
-			viol = append(viol, fmt.Sprintf("chain-height writes not consecutive: %v", hw))
-			break
-		}
+	// chain-height writes: never skipping, never down
+	for _, p := range monitors.CheckHeightWritesAcross([][]world.WriteRec{dsp.Log()}, r.Hit) {
+		viol = append(viol, p.String())
 	}
 	for _, p := range monitors.CheckBroadcasts(blocks, s.Initial, n.HB.Items(), n.DB.Items(), r.Hit) {
 		viol = append(viol, p.String())
